@@ -234,7 +234,8 @@ PROPS = {
              "direct oracle: reference association list + structural invariant on the real collection after every call.",
         note="Trusted: Lean kernel, axioms propext/Classical.choice/Quot.sound; harness, hooks, protocol. Raw-entry builders "
              "with a caller-supplied hash are in the history theorem under their documented contract (hash = the key's hash). "
-             "from_iter is specified per call (C14 fromIter_spec), not as a history op (it replaces the collection).",
+             "from_iter / clone / clone_from / == / into_iter as history calls: pair_history_refines in Hb.Props.C11History (C11's check "
+             "re-checks it); per call C14 fromIter_spec.",
     ),
     "C02": dict(
         module="Hb.Props.C02",
@@ -276,8 +277,9 @@ PROPS = {
              "value-object identities satisfy stored ++ dropped-by-the-collection ++ returned-to-the-caller = inserted as "
              "multisets (so with distinct ids: each exactly once, a returned value is never also dropped); after dropping the "
              "collection nothing is stored; the allocator log is balanced (every alloc has exactly one later free with the same "
-             "layout, nothing live at the end); a never-allocated collection owns no block. into_iter and clone_from accounting: "
-             "intoIter_spec / cloneFrom_spec. Tie: drop events (per object id) and allocator events (size/align) of every call "
+             "layout, nothing live at the end); a never-allocated collection owns no block. into_iter, clone, clone_from, from_iter "
+             "and mem::take as history calls over a pair of maps: run2_ledger (Hb.Props.C11History; object ledger, clones counted "
+             "when created); per call intoIter_spec / cloneFrom_spec. Tie: drop events (per object id) and allocator events (size/align) of every call "
              "compared with the model, element types with and without drop glue, tape allocator; direct oracles: ownership "
              "ledger on the real run (double drop, leak), allocator ledger (layout mismatch, leaked block at scenario end).",
         note="Trusted: Lean kernel, axioms propext/Classical.choice/Quot.sound; harness (drop/alloc instrumentation), hooks. The "
@@ -447,11 +449,20 @@ PROPS = {
     ),
     "C11": dict(
         module="Hb.Props.C11",
+        more_modules=["Hb.Props.C11History"],
         ties=[("scen", "clone", 250, 8000), ("scen", "mixed", 200, 6000), ("scen", "table", 100, 3000), ("scen", "set", 100, 3000),
               ("scen", "panic-mixed", 4, 120)],
         backends=["sse2", "portable"],
         design="§7 C11",
-        text="Lean theorems: clone() yields a table with the same control bytes and position-wise clones (same key/value, "
+        text="Lean HISTORY theorems over a PAIR of maps (Hb.Props.C11History; calls: every single-map call of C01's history on either "
+             "side, other = target.clone(), target.clone_from(&other), ==, into_iter (k steps, then dropped), from_iter, mem::take): "
+             "run2_safe — for EVERY environment no history faults and both tables satisfy the API invariant with len = #stored "
+             "after every call, returned or unwound; pair_history_refines — for lawful Hash/Eq the observations follow a reference "
+             "pair of association lists (clone: same key->value association modulo object identities; == true iff the same finite "
+             "map; panicking Clone is part of the reference); clone_then_diverge / run2_other_unchanged — any later history on one "
+             "side leaves the other side literally unchanged; eq_ignores_history — == is symmetric and depends only on the two "
+             "finite maps, whatever capacities/tombstones the histories left; run2_ledger — object ledger over the pair (clones "
+             "counted when created). Per call: clone() yields a table with the same control bytes and position-wise clones (same key/value, "
              "identities = the Clone oracle's answers, disjoint from the source's when the oracle is fresh); clone_from into a "
              "target in ANY state drops the target's old elements once and gives clones of the source (four paths: "
              "unallocated source, same bucket count, different bucket count, panic); both preserve the hash-dependent invariant; "
